@@ -34,6 +34,8 @@ class ExprMixin:
             return self.length(v, path) > 0
         if isinstance(v, VReal):
             return v.t != 0
+        if isinstance(v, VPy):
+            return self.uf('py_truth', [self.ctx.sorts.PyVal], z3.BoolSort())(v.t)
         if isinstance(v, VData):
             raise OutOfReach('truthiness of Any data')
         if isinstance(v, (VFunc, VClass, VLambda)):
@@ -48,7 +50,7 @@ class ExprMixin:
         if isinstance(v, VSeq):
             return z3.Length(v.t)
         if isinstance(v, VHeapList):
-            fn = self.ctx.heap_fn(path, v.owner.cls, v.field, 'len')
+            fn = self.ctx.heap_fn(path if v.heap is None else Path((), {}, v.heap), v.owner.cls, v.field, 'len')
             return fn(v.owner.t)
         if isinstance(v, VStr):
             return z3.Length(v.t)
@@ -64,7 +66,7 @@ class ExprMixin:
     def at(self, v, i, path):
         """element i (z3 Int) of a list-like value, no bounds obligation"""
         if isinstance(v, VHeapList):
-            fn = self.ctx.heap_fn(path, v.owner.cls, v.field, 'at')
+            fn = self.ctx.heap_fn(path if v.heap is None else Path((), {}, v.heap), v.owner.cls, v.field, 'at')
             return self.ctx.val_of(v.elem_kind, fn(v.owner.t, i))
         if isinstance(v, VSeq):
             return self.ctx.val_of(v.elem_kind, self.seq_nth(v.t, i))
@@ -579,6 +581,13 @@ class ExprMixin:
             return VBoundStr(base, name)
         if isinstance(base, (VList, VSeq, VHeapList, VDict, VSet)):
             return VBoundColl(base, name, node.value if node is not None else None)
+        if isinstance(base, VPy):
+            key = (base.t.get_id(), name)
+            if key not in self.ctx.opaque_attrs:
+                self.ctx.opaque_attrs[key] = VPy(self.ctx.fresh('py_' + name, self.ctx.sorts.PyVal))
+                self.ctx.assumptions.add('library objects are opaque values: their attributes and method results are unconstrained '
+                                         '(attribute reads are stable between two calls on library objects)')
+            return VBoundPy(base, name, self.ctx.opaque_attrs[key])
         if isinstance(base, VFunc) and name == '__doc__':
             doc = ast.get_docstring(base.fi.node, clean=False)
             return VStrConst(doc) if doc is not None else VNone()
@@ -943,6 +952,13 @@ class ExprMixin:
         raise OutOfReach('dict comprehension')
 
     def ev_Call(self, node, path):
+        if isinstance(node.func, ast.Name) and node.func.id == 'old' and self.ctx.spec_mode > 0 and len(node.args) == 1:
+            # pre-state value: evaluate under the heap of function entry; list fields are snapshotted as sequences
+            pre = Path(path.pc, path.env, {})
+            v = self.ev(node.args[0], pre)
+            if isinstance(v, VHeapList):
+                v = VHeapList(v.owner, v.field, v.elem_kind, heap={})
+            return v
         outs = self.call_outcomes(node, path)
         return self.merge_outcomes(outs, path, node)
 
@@ -966,6 +982,15 @@ class MaybeUnbound:
     def __init__(self, bound, val):
         self.bound = bound
         self.val = val
+
+
+class VBoundPy(VPy):
+    """attribute of an opaque library object: usable as a value (the attribute) or callable (a method)"""
+
+    def __init__(self, obj, name, attr_val):
+        super().__init__(attr_val.t)
+        self.obj = obj
+        self.name = name
 
 
 class VBoundStr(Val):
